@@ -85,7 +85,7 @@ fn run_check(id: &str, tier: Tier) -> i32 {
   let ctx = Ctx::new(id, tier);
   let r = std::panic::catch_unwind(std::panic::AssertUnwindSafe(|| -> Outcome {
     match id {
-      "C01" | "C02" | "C03" | "C04" | "C05" | "C06" | "C07" | "C08" | "C09" | "C19" => props_a::run(&ctx),
+      "C01" | "C02" | "C03" | "C04" | "C05" | "C06" | "C07" | "C08" | "C09" | "C19" | "AALL" => props_a::run(&ctx),
       "C10" | "C11" | "C12" | "C20" => props_b::run(&ctx),
       "C13" => c13::run(&ctx),
       "C14" => c14::run(&ctx),
